@@ -1,5 +1,7 @@
 package priority
 
+import "github.com/akramarenkov/cqos/priority/internal/common"
+
 // C15 / C05-init (v1): the constructor sorts the priorities before the (unchecked)
 // strategic division and starts exactly one goroutine.
 
@@ -183,4 +185,45 @@ func VerifC15_v1_run_fault() {
 	g := vSumAssert("in flight at termination", e.G...)
 	vAssert(g == 0, "C15: the discipline terminates only after the in-flight items were released")
 	vAssert(vTickerStops() == 1, "C19: the interrupter is stopped")
+}
+
+// C05 / C15, boundary instance: lists LONGER than the symbolic bound (sorting code tends to switch algorithm at a
+// size threshold). Concrete distinct values in a few arrangements; the constructor must hand the divider a
+// strictly descending list. No symbolic data - the paths are the arrangement choices.
+// gosym: mode=int
+func VerifC15_sort_large() {
+	n := vParam("n", 9)
+	vals := make([]uint, n)
+	switch vChoose("arrangement", 4) {
+	case 0: // ascending
+		for i := range vals {
+			vals[i] = uint(i + 1)
+		}
+	case 1: // descending already
+		for i := range vals {
+			vals[i] = uint(n - i)
+		}
+	case 2: // interleaved
+		for i := range vals {
+			if i%2 == 0 {
+				vals[i] = uint(i/2 + 1)
+			} else {
+				vals[i] = uint(n - i/2)
+			}
+		}
+	case 3: // rotated
+		for i := range vals {
+			vals[i] = uint((i+n/2)%n + 1)
+		}
+	}
+	sorted := append([]uint{}, vals...)
+	common.SortPriorities(sorted)
+	for i := 0; i+1 < n; i++ {
+		vAssert(sorted[i] > sorted[i+1], "C05/C15: priorities are sorted from highest to lowest before every division")
+	}
+	copyOf := createSortedCopy(vals)
+	for i := 0; i+1 < n; i++ {
+		vAssert(copyOf[i] > copyOf[i+1], "C18: the helpers evaluate the divider on the list sorted from highest to lowest")
+	}
+	vReach("end")
 }
